@@ -79,7 +79,7 @@ def run(ctx):
     # ---- (A) the law -------------------------------------------------------------------------------
     for i in range(NA):
         dmv = rdm()
-        dm = pb.DM(dmv)
+        dm = X.make_dm(rng, dmv)
         f, g, h = rf(), rf(), rf()
         rate = rf(3, 9.5)
         inp = dict(op='delay', dm=dmv, f=str(f), fref=str(g), rate=str(rate))
@@ -159,7 +159,7 @@ def run(ctx):
         ends = [X.hz(z.min_freq), X.hz(z.max_freq), rfq] + labs
         unit_spread = max(abs(exact_delay(Fraction(1), a, rfq)) for a in ends) * X.hz(rate)
         dmv = float(spread / float(unit_spread)) * rng.choice([-1, 1])
-        dm = pb.DM(dmv)
+        dm = X.make_dm(rng, dmv)
         dq = Fraction(dmv)
         exact = [exact_delay(dq, f, rfq) * X.hz(rate) for f in labs]
         if any(abs((d - math.floor(d)) - Fraction(1, 2)) < Fraction(1, 10 ** 9) * (1 + abs(d)) for d in exact):
